@@ -100,6 +100,9 @@ func (m *MycatPartitionLongShard) Init() error {
 
 	segmentLength := 0
 	for i := 0; i < countSize; i++ {
+		if countList[i] < 0 || lengthList[i] < 0 {
+			return errors.New("error, partition count and length must not be negative")
+		}
 		segmentLength += countList[i]
 	}
 
